@@ -502,6 +502,18 @@ class Builtins:
             cx.ghost.setdefault("sums", []).append({"S": S, "fn": fn, "n": to_term_int(n), "src": src, "res": res})
             return res
         if kind == "float":
+            from .values import FloatMode
+            if FloatMode.mode == "real":
+                # relaxed model: FS(0) = 0, FS(j+1) = fl(FS(j) + fn(j)); facts about FS come from lemma instances
+                S = cx.func("FSum", z3.IntSort(), z3.RealSort())
+                cx.assume(S(0) == 0)
+                res = SFloat(S(to_term_int(n)))
+                cx.has_fp = True
+                rec = {"S": S, "fn": fn, "n": to_term_int(n), "src": src, "res": res, "float": True}
+                cx.ghost.setdefault("sums", []).append(rec)
+                if cx.ghost.get("on_sum") is not None:
+                    cx.ghost["on_sum"](cx, rec)      # the contract instantiates its lemma where the sum is formed
+                return res
             # left-to-right float accumulation starting from the int 0:  S(0)=+0.0, S(j+1)=fl(S(j)+fn(j))
             from .values import F64, RNE, fpval
             cx.has_fp = True
